@@ -2353,6 +2353,10 @@ impl Node {
                 state.fee_velocity_control.limit
             );
         }
+        // the fee just counted must survive a restart
+        self.persister
+            .update_node(&self.get_id(), &*state)
+            .unwrap_or_else(|err| panic!("node state persist failed: {:?}", err));
 
         Ok(())
     }
